@@ -49,3 +49,27 @@ Section Predictive.
   Definition posterior_rows (n_chains n_draws : nat) (params : list (nat -> nat -> V)) : list (list V) :=
     flat_map (fun c => map (fun d => map (fun f => f c d) params) (seq 0 n_draws)) (seq 0 n_chains).
 End Predictive.
+
+(* ---------------- parameter names of a posterior predictive model; sample counts of an averaged model ---------------- *)
+(* PosteriorPredictiveModel._check_parameters: every model parameter name is looked up in param_map once *)
+Definition lookup_map (m : list (string * string)) (n : string) : string :=
+  match find (fun kv => String.eqb (fst kv) n) m with Some kv => snd kv | None => n end.
+Definition translate (m : list (string * string)) (names : list string) : list string := map (lookup_map m) names.
+
+(* a variant that walks through the dictionary and replaces in place (names already replaced are replaced again) *)
+Fixpoint replace_first (a b : string) (l : list string) : list string :=
+  match l with
+  | [] => []
+  | x :: r => if String.eqb x a then b :: r else x :: replace_first a b r
+  end.
+Definition translate_chained (m : list (string * string)) (names : list string) : list string :=
+  fold_left (fun acc kv => replace_first (fst kv) (snd kv) acc) m names.
+
+
+(* ---------------- PAM: numbers of samples per model ---------------- *)
+Definition counts (k : nat) (draws : list nat) : list nat := map (fun m => count_occ Nat.eq_dec draws m) (seq 0 k).
+(* model of every sample ID (1-based position), given the counts *)
+Definition id_models (cs : list nat) : list nat := flat_map (fun m => repeat m (nth m cs 0)) (seq 0 (List.length cs)).
+(* numpy.unique(..., return_counts=True)[1]: only of the values that occur, in increasing order *)
+Definition counts_unique (k : nat) (draws : list nat) : list nat := filter (fun c => negb (Nat.eqb c 0)) (counts k draws).
+
